@@ -8,10 +8,10 @@ CONFIG = dict(
     rule="history = 2-8 operations over one structure slot (library-allocated or caller-allocated-and-zeroed) drawn from "
          "{decode-prefix(syntax,cut), decode-rest, decode-garbage (transport-damaged bytes, fresh or as continuation), reset, redecode, "
          "encode, tonew, check, print, free-contents, free}; pass 1 runs it fault-free and counts allocations per op, then the history is "
-         "re-executed once for EVERY (op, k-th allocation) pair, single and sticky (sampled above the cap), and once for EVERY (encode op, k-th output callback invocation) with the callback failing from there on; thorough adds double faults. "
+         "re-executed once for EVERY (op, k-th allocation) pair, single and sticky (sampled above the cap), and once for EVERY (encode op, k-th output callback invocation) with the callback failing from there on; thorough adds double faults. After every decode op the structure is walked against the ledger: a list never claims more room than its array block holds, a string never more octets than its buffer (inconsistent-structure). "
          "evaluations = history executions; a history is non-trivial when at least one injected allocation failure actually reached the "
          "library; distinct = distinct (program,type,value,mode,op list)",
-    assumptions=["only documented uses are generated: a structure whose decode completed is not decoded into again without a reset",
+    assumptions=["only documented uses are generated: a structure whose decode completed or failed is not decoded into again without a reset (the manual: free after RC_FAIL)",
                  "after an injected allocation failure an op may fail or return exactly the fault-free result; a different success is a violation",
                  "the ledger (link-time wrapped allocator) defines 'released exactly once'; ASan independently sees double frees and use-after-free",
                  "value equality = byte-equal DER and CANONICAL-XER re-encodings"],
